@@ -99,6 +99,24 @@ def check(run):
                     exp_bad = ("expire-pseudo", "expiry sweep proposed a services pseudo-client: %s" % sorted(got2), ops)
                 elif ids.get("a", "?") + ".0" in third:
                     exp_bad = ("expire-again", "an expired and deleted session is proposed again: %s" % third, ops)
+        # part 3: what the HTTP API tells a client: "not yet seen" must stay distinguishable from "no such session"
+        # (a client that is told 404 gives the session up; on a lagging node the session may simply not be applied yet)
+        if ok and exp_bad is None:
+            ops3 = list(api_run.BOOT) + ["create a", "create d", "post d ok 1 " + api_run.hx("NICK dora"), "delete d ok " + api_run.hx("gone"),
+                                          "get 0x7777777 wrong 0.0", "get 0x7777777 other:a 0.0", "get d wrong 0.0", "get 0x1 wrong 0.0", "get a ok 0.0"]
+            gl3, err3 = api_run.run_ops(exe, ops3, tag="c17b")
+            if err3 or len(gl3) != len(ops3):
+                exp_bad = ("harness", err3 or "short output", ops3)
+            else:
+                st = [api_run.kv(g).get("status") for g in gl3[-5:]]
+                if st[0] == "404" or st[1] == "404":
+                    exp_bad = ("notyet-404", "GET for a session id beyond the last applied entry (may exist on the leader already) was answered 404 `no such session` (%s, %s); the client gives the session up" % (st[0], st[1]), ops3)
+                elif st[0] == "200" or st[1] == "200":
+                    exp_bad = ("notyet-200", "GET for a session id beyond the last applied entry was answered 200", ops3)
+                elif st[3] != "404":
+                    exp_bad = ("nosuch", "GET for an id below the last applied entry that never was a session was answered %s (expected 404)" % st[3], ops3)
+                elif st[4] != "200":
+                    exp_bad = ("found", "GET for a live session with its secret was answered %s" % st[4], ops3)
         run.api_exp = exp_bad
         return irc_check.run_property(run, oracle, n, L,
             rule="(a) histories with session lookups after random prefixes (= lags): ids created so far, ids in between, ids beyond the last applied entry; oracle: live => found, nosuch only below the last applied id, future ids => notyet; (b) real-clock expiry sweep with sessions idle 2.6 s / 1.1 s and a services pseudo-client at a 2 s expiration; non-trivial = history > 5 ops",
